@@ -185,6 +185,10 @@ func (op Tsp) Assembler(arch *Arch, words []string) (string, error) {
 		}
 	}
 
+	if result == "" {
+		return "", Prerror{"Unknown register name " + words[0]}
+	}
+
 	if partial, err := Process_number(words[1]); err == nil {
 		result += zeros_prefix(int(locationBits), partial)
 	} else {
@@ -195,6 +199,10 @@ func (op Tsp) Assembler(arch *Arch, words []string) (string, error) {
 		result += zeros_prefix(8, partial)
 	} else {
 		return "", Prerror{err.Error()}
+	}
+
+	for i := arch.Opcodes_bits() + int(arch.R) + int(locationBits) + 8; i < arch.Max_word(); i++ {
+		result += "0"
 	}
 
 	return result, nil
